@@ -80,6 +80,13 @@ func (bo *V2BlockOutline) Complete(cs consensus.State, txns []types.Transaction,
 			Commitment: bo.commitment(cs),
 		},
 	}
+	// NOTE: the outline comes from a peer, so the fees may overflow. In that
+	// case the payout is left short, and the block fails validation.
+	addFee := func(fee types.Currency) {
+		if sum, overflow := b.MinerPayouts[0].Value.AddWithOverflow(fee); !overflow {
+			b.MinerPayouts[0].Value = sum
+		}
+	}
 	for i := range bo.Transactions {
 		ptxn := &bo.Transactions[i]
 		if ptxn.Transaction == nil && ptxn.V2Transaction == nil {
@@ -87,10 +94,10 @@ func (bo *V2BlockOutline) Complete(cs consensus.State, txns []types.Transaction,
 		}
 		if ptxn.Transaction != nil {
 			b.Transactions = append(b.Transactions, *ptxn.Transaction)
-			b.MinerPayouts[0].Value = b.MinerPayouts[0].Value.Add(ptxn.Transaction.TotalFees())
+			addFee(ptxn.Transaction.TotalFees())
 		} else if ptxn.V2Transaction != nil {
 			b.V2.Transactions = append(b.V2.Transactions, *ptxn.V2Transaction)
-			b.MinerPayouts[0].Value = b.MinerPayouts[0].Value.Add(ptxn.V2Transaction.MinerFee)
+			addFee(ptxn.V2Transaction.MinerFee)
 		}
 	}
 	return b, bo.Missing()
